@@ -67,12 +67,12 @@ pub fn create_module() -> Scope {
     });
     def_va!(f, max(numbers), |s| {
         let numbers = unnamed(s.get_va(name!(numbers)))?;
-        find_extreme(&numbers, Ordering::Greater)?
+        find_extreme(&numbers, Ordering::Greater, true)?
             .map_or_else(|| Ok(Value::call("max", numbers)), |v| Ok(v.into()))
     });
     def_va!(f, min(numbers), |s| {
         let numbers = unnamed(s.get_va(name!(numbers)))?;
-        find_extreme(&numbers, Ordering::Less)?
+        find_extreme(&numbers, Ordering::Less, true)?
             .map_or_else(|| Ok(Value::call("min", numbers)), |v| Ok(v.into()))
     });
     def!(f, round(number), round::sass_round);
@@ -193,8 +193,6 @@ pub fn expose(m: &Scope, global: &mut FunctionMap) {
         // - - - Boundig Functions - - -
         (name!(ceil), name!(ceil)),
         (name!(floor), name!(floor)),
-        (name!(max), name!(max)),
-        (name!(min), name!(min)),
         // - - - Unit Functions - - -
         (name!(comparable), name!(compatible)),
         (name!(unitless), name!(is_unitless)),
@@ -207,6 +205,18 @@ pub fn expose(m: &Scope, global: &mut FunctionMap) {
     }
 
     // Functions behave somewhat differently in the global scope vs in the math module.
+    // The global min and max are also css functions, for numbers that
+    // can only be compared when the css is used.
+    def_va!(global, max(numbers), |s| {
+        let numbers = unnamed(s.get_va(name!(numbers)))?;
+        find_extreme(&numbers, Ordering::Greater, false)?
+            .map_or_else(|| Ok(Value::call("max", numbers)), |v| Ok(v.into()))
+    });
+    def_va!(global, min(numbers), |s| {
+        let numbers = unnamed(s.get_va(name!(numbers)))?;
+        find_extreme(&numbers, Ordering::Less, false)?
+            .map_or_else(|| Ok(Value::call("min", numbers)), |v| Ok(v.into()))
+    });
     css::global(global);
     distance::global(global);
     def_va!(global, round(kwargs), round::css_round);
@@ -232,9 +242,15 @@ fn deg_value(rad: f64) -> Value {
     Numeric::new(rad.to_degrees(), Unit::Deg).into()
 }
 
+/// Find the largest or smallest of some numbers.
+///
+/// If `strict`, numbers that Sass cannot compare are an error,
+/// otherwise the result is None if they may be comparable in css.
+/// The result is also None if any of the arguments is not a number.
 fn find_extreme(
     v: &[NumOrSpecial],
     pref: Ordering,
+    strict: bool,
 ) -> Result<Option<Numeric>, ExtremeError> {
     let mut v = v.iter();
     let found = v.next().ok_or(ExtremeError::OneRequired)?;
@@ -248,7 +264,9 @@ fn find_extreme(
         };
         if let Some(o) = cmp2(found, v) {
             found = if o == pref { found } else { v };
-        } else if may_cmp_css(found, v) {
+        } else if found.is_comparable(v) {
+            // One of them is NaN, which is neither larger nor smaller.
+        } else if !strict && may_cmp_css(found, v) {
             return Ok(None);
         } else {
             return Err(ExtremeError::Incompatible(
